@@ -6,6 +6,7 @@ import (
 	"net/url"
 	"os"
 	"reflect"
+	"sort"
 	"strings"
 	"testing"
 	"time"
@@ -75,7 +76,31 @@ type c13Host struct {
 	RM   json.RawMessage
 }
 
-var c13Fields = []string{"c13emb", "c13embp", "BA", "H", "HS", "BAA", "RM", "S", "N", "F", "B", "U", "Sl", "Is", "Arr", "M", "P", "PP", "PS", "I", "Fn", "Ch", "T", "PT", "L", "Ls", "ML", "MI", "C", "UP", "E", "St", "AA", "MS", "Up"}
+// declared (named) container types, as hand-written models are full of them: a named slice of strings, and
+// container types that refer to themselves without a struct in between
+type c13Tags []string
+type c13Forest []c13Forest
+type c13Obj map[string]c13Obj
+type c13SelfPtr *c13SelfPtr
+type c13MutA []c13MutB
+type c13MutB []c13MutA
+type c13PtrList *[]c13PtrListElem
+type c13PtrListElem struct{ Next c13PtrList }
+
+// c13Decl: a struct whose fields have such types (some unexported, some nil).
+type c13Decl struct {
+	Tags   c13Tags
+	Sorted sort.StringSlice
+	Forest c13Forest
+	Obj    c13Obj
+	forest c13Forest
+	PL     c13PtrList
+	SP     c13SelfPtr
+	Mut    c13MutA
+	Name   string
+}
+
+var c13Fields = []string{"Sorted", "Forest", "Obj", "PL", "SP", "Mut", "c13emb", "c13embp", "BA", "H", "HS", "BAA", "RM", "S", "N", "F", "B", "U", "Sl", "Is", "Arr", "M", "P", "PP", "PS", "I", "Fn", "Ch", "T", "PT", "L", "Ls", "ML", "MI", "C", "UP", "E", "St", "AA", "MS", "Up"}
 
 func c13Populated() *c13Any {
 	s := "abc"
@@ -262,6 +287,22 @@ func c13AllShapes() map[string]func() interface{} {
 		return &c13Host{c13emb: c13emb{X: "a", N: 1}, c13embp: &c13embp{Y: "b"}, Name: "n", BA: [4]byte{1, 2, 3, 4}, H: c13hash{9}, HS: []c13hash{{1}, {1}}, BAA: [2][4]byte{{1}, {1}}, RM: json.RawMessage(`{"a":1}`)}
 	}
 	m["host-zero"] = func() interface{} { return &c13Host{} }
+	m["declared-container-types"] = func() interface{} {
+		return &c13Decl{Tags: c13Tags{"a", "b", "a"}, Sorted: sort.StringSlice{"1", "2"}, Forest: c13Forest{nil, c13Forest{}}, Obj: c13Obj{"a": nil, "b": c13Obj{}}, Name: "n"}
+	}
+	m["declared-container-types-zero"] = func() interface{} { return &c13Decl{} }
+	m["named-string-slice"] = func() interface{} { return c13Tags{"a", "b", "a"} }
+	m["sort-string-slice"] = func() interface{} { return sort.StringSlice{"1", "2", "1"} }
+	m["self-referential-slice"] = func() interface{} { return c13Forest{nil, c13Forest{c13Forest{}}} }
+	m["self-referential-pointer"] = func() interface{} { var p c13SelfPtr; q := c13SelfPtr(&p); return q }
+	m["self-referential-pointer-nil"] = func() interface{} { var p c13SelfPtr; return p }
+	m["mutually-referential-slices"] = func() interface{} { return c13MutA{nil, c13MutB{c13MutA{}}} }
+	m["declared-container-types-2"] = func() interface{} {
+		var p c13SelfPtr
+		return &c13Decl{SP: c13SelfPtr(&p), Mut: c13MutA{c13MutB{}}, Name: "n"}
+	}
+	m["self-referential-map"] = func() interface{} { return c13Obj{"a": c13Obj{"b": nil}} }
+	m["map-of-named-slices"] = func() interface{} { return map[string]c13Tags{"k": {"a", "a"}, "z": nil} }
 	// more than a thousand objects in one call (each carries its own groups and clauses: per-call tables grow past any small bound)
 	m["many-leaves"] = func() interface{} {
 		out := make([]*lib.Leaf, 1100)
@@ -421,6 +462,25 @@ func runC13(c *C13Case) (panicked interface{}) {
 	})
 }
 
+// c13Watchdog: how long a catalogue call may run.  Catalogue calls take microseconds (the crowded
+// shapes a few milliseconds); the bound is seven orders of magnitude above that, so that a loaded
+// machine cannot reach it.
+const c13Watchdog = 60 * time.Second
+
+// runC13Watched runs the case in a goroutine of its own and reports whether it came back.
+func runC13Watched(c *C13Case) (panicked interface{}, hung bool) {
+	done := make(chan interface{}, 1)
+	go func() { done <- runC13(c) }()
+	tm := time.NewTimer(c13Watchdog)
+	defer tm.Stop()
+	select {
+	case p := <-done:
+		return p, false
+	case <-tm.C:
+		return nil, true
+	}
+}
+
 func TestC13(t *testing.T) {
 	cleanup := setupFS()
 	defer cleanup()
@@ -449,7 +509,14 @@ func TestC13(t *testing.T) {
 					}
 					c := mkC13(e, sh, r)
 					count++
-					if p := runC13(c); p != nil {
+					p, hung := runC13Watched(c)
+					if hung {
+						// "returns normally" - a call that is still running after c13Watchdog on inputs this
+						// small spins or is blocked for good (the goroutine cannot be stopped: the test ends here)
+						ev.Fail(t, "C13", "catalogue", c, "the call did not return within %v (every other call of the catalogue takes microseconds)", c13Watchdog)
+						t.FailNow()
+					}
+					if p != nil {
 						ev.Fail(t, "C13", "catalogue", c, "panic: %v", p)
 					}
 				}
@@ -653,7 +720,12 @@ func TestC13Replay(t *testing.T) {
 		if err := jsonUnmarshal(rp.Case, &c); err != nil {
 			t.Fatalf("replay %s: %v", f, err)
 		}
-		if p := runC13(&c); p != nil {
+		p, hung := runC13Watched(&c)
+		if hung {
+			ev.Fail(t, "C13", "replay", &c, "the call did not return within %v (replay %s)", c13Watchdog, f)
+			t.FailNow()
+		}
+		if p != nil {
 			ev.Fail(t, "C13", "replay", &c, "panic: %v (replay %s)", p, f)
 		}
 	}
